@@ -18,6 +18,16 @@ func init() {
 }
 
 func AsmYCbCrToGray(c *image.YCbCr, pixels []float32) {
+	// The assembly walks x = 0, 8, 16, ... until it equals Rect.Max.X, indexes luma and chroma alike with
+	// y*stride+x and stores at pixels[y*YStride+x]: only a 4:4:4 image at the origin, with rows of exactly
+	// Dx() samples and a width that is a multiple of 8, has that layout. Everything else takes the portable path.
+	w, h := c.Rect.Dx(), c.Rect.Dy()
+	if c.SubsampleRatio != image.YCbCrSubsampleRatio444 || c.Rect.Min.X != 0 || c.Rect.Min.Y != 0 ||
+		w <= 0 || w%8 != 0 || c.YStride != w || c.CStride != w ||
+		len(pixels) < w*h || len(c.Y) < w*h || len(c.Cb) < w*h || len(c.Cr) < w*h {
+		yCbCrToGrayAlt(c, pixels)
+		return
+	}
 	asmYCbCrToGray(pixels,
 		c.Rect.Min.X, c.Rect.Min.Y, c.Rect.Max.X, c.Rect.Max.Y,
 		c.Y, c.Cb, c.Cr, c.YStride, c.CStride)
